@@ -34,7 +34,7 @@ def check_idle_data(idle_data):
 
 class UTMIHostIdleData(UTMIHost):
     def __init__(self, script, *, idle_data=None, **kw):
-        self.idle_data = check_idle_data(idle_data)
+        self._idd = check_idle_data(idle_data)       # (kept apart from the base class's own idle_data, which stays None)
         self.idle_data_cycles = 0              # cycles in which rx_data differed from the held byte while rx_valid was low
         self.idle_data_in_packet = 0           # ... of which rx_active was high (gaps inside / after the bytes of a packet)
         self.idle_data_at_end = 0              # ... of which were the cycle rx_active fell
@@ -43,7 +43,7 @@ class UTMIHostIdleData(UTMIHost):
 
     def drive(self, t):
         d = super().drive(t)
-        idd = self.idle_data
+        idd = self._idd
         if idd is not None and not d["rx_valid"]:
             held = d["rx_data"]
             if idd[0] == "const":
